@@ -166,6 +166,11 @@ class ScriptPeer:
             put(D0, ('data', good))
         elif letter == 'drop':
             pass
+        elif letter in ('valid-tx0', 'valid-tx+1'):
+            # (Modbus/TCP) a conforming answer whose MBAP transaction id is not the request's: GoodWe firmware fills the
+            # header unreliably and the library does not look at the field
+            tx = 0 if letter == 'valid-tx0' else (int.from_bytes(good[:2], 'big') + 1) & 0xFFFF
+            put(D0, ('data', tx.to_bytes(2, 'big') + good[2:]))
         elif letter == 'valid@.5T':
             put(.5 * T, ('data', good))
         elif letter == 'valid@.6T':
